@@ -1,3 +1,240 @@
-//! C03 (stub: no cases yet)
+//! C03 — string slicing and char-boundary tests (konst::string) vs std `str`.
 use crate::common::*;
-pub fn run(_cfg: &Cfg, _out: &mut Out) {}
+use konst::string as ks;
+use std::panic::{catch_unwind, UnwindSafe};
+
+/// `PANIC(<who>,<index>)` from konst's "<who> `<index>` is not on a char boundary"
+/// (the message buffer is padded with NULs); any other panic is `PANIC(?)`.
+pub fn render_panic(e: Box<dyn std::any::Any + Send>) -> String {
+    let msg: String = if let Some(s) = e.downcast_ref::<String>() {
+        s.clone()
+    } else if let Some(s) = e.downcast_ref::<&str>() {
+        s.to_string()
+    } else {
+        String::new()
+    };
+    let msg: String = msg.chars().filter(|c| *c != '\0').collect();
+    if msg.contains("overflow") {
+        return "PANIC(overflow)".to_string();
+    }
+    if let Some(rest) = msg.strip_suffix("` is not on a char boundary") {
+        if let Some((who, num)) = rest.split_once(" `") {
+            if matches!(who, "index" | "start" | "end") && !num.is_empty() && num.bytes().all(|b| b.is_ascii_digit()) {
+                return format!("PANIC({},{})", who, num);
+            }
+        }
+    }
+    "PANIC(?)".to_string()
+}
+pub fn catch_blame<F: FnOnce() -> String + UnwindSafe>(f: F) -> String {
+    match catch_unwind(f) {
+        Ok(s) => s,
+        Err(e) => render_panic(e),
+    }
+}
+
+// ------------------------------------------------------------------ std oracles
+
+fn std_up_to(s: &str, i: usize) -> String {
+    if i > s.len() {
+        view_str(s, s)
+    } else if s.is_char_boundary(i) {
+        view_str(s, &s[..i])
+    } else {
+        format!("PANIC(index,{})", i)
+    }
+}
+fn std_from(s: &str, i: usize) -> String {
+    if i > s.len() {
+        "e".to_string()
+    } else if s.is_char_boundary(i) {
+        view_str(s, &s[i..])
+    } else {
+        format!("PANIC(start,{})", i)
+    }
+}
+fn std_split_at(s: &str, i: usize) -> String {
+    if i > s.len() {
+        format!("({},e)", view_str(s, s))
+    } else if s.is_char_boundary(i) {
+        let (a, b) = s.split_at(i);
+        format!("({},{})", view_str(s, a), view_str(s, b))
+    } else {
+        format!("PANIC(index,{})", i)
+    }
+}
+fn std_range(s: &str, a: usize, b: usize) -> String {
+    let len = s.len();
+    if a < len && !s.is_char_boundary(a) {
+        return format!("PANIC(start,{})", a);
+    }
+    if b < len && !s.is_char_boundary(b) {
+        return format!("PANIC(end,{})", b);
+    }
+    let (a2, b2) = (a.min(len), b.min(len));
+    if a2 > b2 { "e".to_string() } else { view_str(s, &s[a2..b2]) }
+}
+
+fn sv(s: &str, o: Option<&str>) -> String {
+    show_opt(o, |x| view_str(s, x))
+}
+
+// ------------------------------------------------------------------ cases
+
+fn one_idx(out: &mut Out, s: &str, i: usize) {
+    let args = format!("{} {}", hex(s.as_bytes()), i);
+    let imp = fields(&[
+        ("bnd", catch_blame(|| show_bool(ks::is_char_boundary(s, i)).to_string())),
+        ("gu", catch_blame(|| sv(s, ks::get_up_to(s, i)))),
+        ("gf", catch_blame(|| sv(s, ks::get_from(s, i)))),
+        ("ut", catch_blame(|| view_str(s, ks::str_up_to(s, i)))),
+        ("fr", catch_blame(|| view_str(s, ks::str_from(s, i)))),
+        ("sp", catch_blame(|| {
+            let (a, b) = ks::split_at(s, i);
+            format!("({},{})", view_str(s, a), view_str(s, b))
+        })),
+    ]);
+    let st = fields(&[
+        ("bnd", show_bool(s.is_char_boundary(i)).to_string()),
+        ("gu", sv(s, s.get(..i))),
+        ("gf", sv(s, s.get(i..))),
+        ("ut", std_up_to(s, i)),
+        ("fr", std_from(s, i)),
+        ("sp", std_split_at(s, i)),
+    ]);
+    let tag = if i > s.len() {
+        "beyond"
+    } else if !s.is_char_boundary(i) {
+        "inside"
+    } else if i == 0 || i == s.len() {
+        "-"
+    } else {
+        "interior"
+    };
+    out.line("c03.idx", &args, &imp, &st, tag);
+}
+
+fn one_rng(out: &mut Out, s: &str, a: usize, b: usize) {
+    let args = format!("{} {} {}", hex(s.as_bytes()), a, b);
+    let imp = fields(&[
+        ("gr", catch_blame(|| sv(s, ks::get_range(s, a, b)))),
+        ("rg", catch_blame(|| view_str(s, ks::str_range(s, a, b)))),
+    ]);
+    let st = fields(&[("gr", sv(s, s.get(a..b))), ("rg", std_range(s, a, b))]);
+    let len = s.len();
+    let inside = |i: usize| i < len && !s.is_char_boundary(i);
+    let mut t: Vec<&str> = Vec::new();
+    if inside(a) || inside(b) {
+        t.push("inside");
+    }
+    if a > len || b > len {
+        t.push("beyond");
+    }
+    if a > b {
+        t.push("rev");
+    }
+    if t.is_empty() && a > 0 && b < len {
+        t.push("interior");
+    }
+    out.line("c03.rng", &args, &imp, &st, &t.join("+"));
+}
+
+fn one_scan(out: &mut Out, s: &str) {
+    let args = hex(s.as_bytes());
+    let idx: Vec<usize> = (0..s.len() + 2).collect();
+    let imp = fields(&[
+        ("bnd", show_list(idx.iter(), |&i| catch_blame(|| show_bool(ks::is_char_boundary(s, i)).to_string()))),
+        ("gu", show_list(idx.iter(), |&i| catch_blame(|| sv(s, ks::get_up_to(s, i))))),
+        ("gf", show_list(idx.iter(), |&i| catch_blame(|| sv(s, ks::get_from(s, i))))),
+        ("ut", show_list(idx.iter(), |&i| catch_blame(|| view_str(s, ks::str_up_to(s, i))))),
+        ("fr", show_list(idx.iter(), |&i| catch_blame(|| view_str(s, ks::str_from(s, i))))),
+    ]);
+    let st = fields(&[
+        ("bnd", show_list(idx.iter(), |&i| show_bool(s.is_char_boundary(i)).to_string())),
+        ("gu", show_list(idx.iter(), |&i| sv(s, s.get(..i)))),
+        ("gf", show_list(idx.iter(), |&i| sv(s, s.get(i..)))),
+        ("ut", show_list(idx.iter(), |&i| std_up_to(s, i))),
+        ("fr", show_list(idx.iter(), |&i| std_from(s, i))),
+    ]);
+    let tag = if s.is_ascii() { "-" } else { "multibyte" };
+    out.line("c03.scan", &args, &imp, &st, tag);
+}
+
+/// code points whose encodings cover every lead byte x every first continuation byte of
+/// the 2-byte forms, every 3-/4-byte lead byte, and the edges of every Table 3-7 row
+pub fn wide_chars(thorough: bool) -> Vec<char> {
+    let step = if thorough { 13 } else { 127 };
+    let edges: [u32; 12] = [0x7F, 0x80, 0x7FF, 0x800, 0xFFF, 0x1000, 0xD7FF, 0xE000, 0xFFFF, 0x10000, 0x3FFFF, 0x10FFFF];
+    let mut v = Vec::new();
+    for n in 0u32..0x110000 {
+        let near = edges.iter().any(|&e| n + 2 >= e && n <= e + 2);
+        if n < 0x900 || n % step == 0 || near || (n & 0xFFF) == 0 || (n & 0xFFF) == 0xFFF || (n & 0x3F) == 0x3F && n % 5 == 0 && thorough {
+            if let Some(c) = char::from_u32(n) {
+                v.push(c);
+            }
+        }
+    }
+    v
+}
+
+pub fn rand_string(rng: &mut Rng, max_chars: u64) -> String {
+    let n = rng.below(max_chars + 1);
+    let mut s = String::new();
+    for _ in 0..n {
+        let c = loop {
+            let x = match rng.below(6) {
+                0 => rng.below(0x80),
+                1 => 0x80 + rng.below(0x780),
+                2 => 0x800 + rng.below(0xF800),
+                3 => 0x10000 + rng.below(0x100000),
+                4 => *rng.pick(&[0x7Fu64, 0x80, 0x7FF, 0x800, 0xD7FF, 0xE000, 0xFFFF, 0x10000, 0x10FFFF]),
+                _ => *rng.pick(&['a' as u64, 0xE9, 0x9508, 0x1F9E0]),
+            };
+            if let Some(c) = char::from_u32(x as u32) {
+                break c;
+            }
+        };
+        s.push(c);
+    }
+    s
+}
+
+pub fn run(cfg: &Cfg, out: &mut Out) {
+    // bounded-exhaustive: every string over one char of each UTF-8 length, every index / pair
+    let alpha = ['a', 'é', '锈', '🧠'];
+    let strings = all_strings(&alpha, if cfg.thorough { 5 } else { 4 });
+    for s in &strings {
+        let mut idx: Vec<usize> = (0..=s.len() + 2).collect();
+        idx.push(usize::MAX);
+        idx.push(usize::MAX - 1);
+        idx.push(1usize << 63);
+        for &i in &idx {
+            one_idx(out, s, i);
+        }
+        idx.truncate(s.len() + 4); // 0..=len+2 and usize::MAX
+        for &a in &idx {
+            for &b in &idx {
+                one_rng(out, s, a, b);
+            }
+        }
+    }
+    // every byte value that can occur in valid UTF-8, in every position of a sequence
+    for c in wide_chars(cfg.thorough) {
+        one_scan(out, &format!("{}", c));
+        one_scan(out, &format!("a{}\u{e9}", c));
+    }
+    // seeded random: longer strings of arbitrary scalar values
+    let mut rng = Rng::new(cfg.seed ^ 0xC03);
+    let count = if cfg.thorough { 20000 } else { 2500 };
+    for _ in 0..count {
+        let s = rand_string(&mut rng, 9);
+        one_scan(out, &s);
+        for _ in 0..6 {
+            let pick = |rng: &mut Rng| -> usize {
+                if rng.below(12) == 0 { usize::MAX - rng.below(2) as usize } else { rng.below(s.len() as u64 + 3) as usize }
+            };
+            let (a, b) = (pick(&mut rng), pick(&mut rng));
+            one_rng(out, &s, a, b);
+        }
+    }
+}
